@@ -94,10 +94,10 @@ def walk_probe(run, tier, nprng, torch_too=False, prop="C02"):
 def full_traces(run, tier):
     """code -> spec: compute_full for every N, every tiny configuration."""
     traces, meta, tid = [], {}, 0
-    for (L, S, st) in c01.stft_configs(tier):
+    for (L, S, st) in c01.stft_configs(tier) + c01.gapped_configs(tier):
         c = stubs.make_stft(L, S, st)
         rec = T.Recorder(c)
-        Ns = list(range(0, 3 * L + 4))
+        Ns = list(range(0, 3 * max(L, S) + 4))
         for N in Ns:
             rec.run(("full", N))
             run.evaluations += 1
@@ -139,7 +139,8 @@ def value_level(run, tier, nprng, walk, torch_too=False, prop="C02"):
     windows = ["hamming", "hann", "bartlett", "blackman", {"name": "gamma", "order": 2}]
     combos = []
     frames_cases = []
-    Lset = [(3, 1), (4, 2), (5, 5), (6, 4), (7, 3), (8, 1)] if tier == "quick" else [(L, S) for L in range(2, 11) for S in sorted({1, 2, (L + 1) // 2, L})]
+    Lset = [(3, 1), (4, 2), (5, 5), (6, 4), (7, 3), (8, 1), (4, 9), (5, 7)] if tier == "quick" else \
+        [(L, S) for L in range(2, 11) for S in sorted({1, 2, (L + 1) // 2, L, L + 2, 2 * L + 1})]
     for rate, LS in ((stubs.RATE, Lset), (8000, [(200, 80), (201, 67)]), (16000, [(400, 160)] if tier == "quick" else [(400, 160), (320, 161)])):
         banks = bank_matrix(tier, rate)
         for bi, (bname, mk) in enumerate(banks):
@@ -153,7 +154,7 @@ def value_level(run, tier, nprng, walk, torch_too=False, prop="C02"):
     # all frames needed, exported by TLC in one go
     plan = []
     for (rate, bname, mk, L, S, st, pad) in combos:
-        Ns = sorted({L // 2 + 1, L, L + S, 2 * L + 1, 3 * L + 3 if rate == stubs.RATE else 2 * L + S + 3, L // 2})
+        Ns = sorted({L // 2 + 1, L, L + S, 2 * L + 1, 3 * L + 3 if rate == stubs.RATE else 2 * L + S + 3, L // 2, 2 * S + L})
         for N in Ns:
             plan.append((rate, bname, mk, L, S, st, pad, N))
             frames_cases.append({"L": L, "S": S, "st": stubs.spec_style(st), "N": N})
